@@ -246,6 +246,36 @@ func checkC08(c *Check) {
 						return ok && p.setDerivedFromTable(g, "httpMethods")
 					}
 					eq = union(eq, edgesWhere(ar, cBool(isSetHit), true))
+					// … or an explicit enumeration: the method compared with each of the nine verb constants (that the
+					// table is exactly those nine is C11.R7); a missing verb would reject a well-formed registration
+					var methodV ssa.Value
+					for _, r := range referrers(al) {
+						if ia, ok := r.(*ssa.IndexAddr); ok {
+							for _, rr := range referrers(ia) {
+								if st, ok := rr.(*ssa.Store); ok && st.Addr == ssa.Value(ia) {
+									methodV = st.Val
+								}
+							}
+						}
+					}
+					if methodV != nil {
+						verbs := map[string]bool{"GET": false, "HEAD": false, "POST": false, "PUT": false, "PATCH": false, "DELETE": false, "CONNECT": false, "OPTIONS": false, "TRACE": false}
+						enum := EdgeSet{}
+						for v := range verbs {
+							es := edgesWhere(ar, cCmp(token.EQL, vIs(methodV), vConstStr(v)), true)
+							if len(es) > 0 {
+								verbs[v] = true
+								enum = union(enum, es)
+							}
+						}
+						all := true
+						for _, seen := range verbs {
+							all = all && seen
+						}
+						if all {
+							eq = union(eq, enum)
+						}
+					}
 					eq = union(eq, flagTrueEdges(ar, eq))
 					if ok2, _ := guardedBy(ar, eq, isInstr(al)); !ok2 || len(eq) == 0 {
 						okProv, why = false, "a single-method selection is built without comparing with the httpMethods table"
